@@ -21,7 +21,9 @@ def mc(prop, tier):
                 ("MC_Atomic", "MC_Atomic_w8_q.cfg", FIELD_ACTIONS + ["MC_Atomic.MRmw"]),
                 ("MC_Atomic", "MC_Atomic_live.cfg", ALL_ACTIONS)]
     return [("MC_Atomic", "MC_Atomic_w64.cfg", ALL_ACTIONS),
+            ("MC_Atomic", "MC_Atomic_w64_4t.cfg", FIELD_ACTIONS),
             ("MC_Atomic", "MC_Atomic_w8.cfg", FIELD_ACTIONS + ["MC_Atomic.MRmw"]),
+            ("MC_Atomic", "MC_Atomic_w8_4t.cfg", FIELD_ACTIONS + ["MC_Atomic.MRmw"]),
             ("MC_Atomic", "MC_Atomic_ef64.cfg", FIELD_ACTIONS + ["MC_Atomic.MRmw"]),
             ("MC_Atomic", "MC_Atomic_live.cfg", ALL_ACTIONS),
             ("MC_Atomic", "MC_Atomic_live8.cfg", FIELD_ACTIONS + ["MC_Atomic.MRmw"])]
@@ -35,8 +37,10 @@ def exports(prop, tier):
                 ("tlc3", "MC_Atomic", "MC_Atomic_export_q3.cfg"),
                 ("tlc-w8", "MC_Atomic", "MC_Atomic_export_w8_q.cfg")]
     return [("tlc", "MC_Atomic", "MC_Atomic_export_t.cfg"),
+            ("tlc-boundary2", "MC_Atomic", "MC_Atomic_export_t_b2.cfg"),
             ("tlc2-allvalues", "MC_Atomic", "MC_Atomic_export_t2.cfg"),
             ("tlc-w8", "MC_Atomic", "MC_Atomic_export_w8_t.cfg"),
+            ("tlc3-w8", "MC_Atomic", "MC_Atomic_export_w8_t3.cfg"),
             ("tlc-ef", "MC_Atomic", "MC_Atomic_export_ef.cfg")]
 
 
@@ -53,8 +57,8 @@ def _full_width(tier):
 def episodes(prop, tier, seed):
     q = tier == "quick"
     out = {}
-    out["rand"] = (gen_atomic.random_episodes(seed, 90 if q else 1500), "verif")
-    out["rand-release"] = (gen_atomic.random_episodes(seed + 1, 30 if q else 500, full=True), "release")
+    out["rand"] = (gen_atomic.random_episodes(seed, 70 if q else 1500), "verif")
+    out["rand-release"] = (gen_atomic.random_episodes(seed + 1, 20 if q else 500, full=True), "release")
     out["tlc-fullwidth-release"] = (_full_width(tier), "release")
     return out
 
